@@ -180,6 +180,8 @@ func Alphabet() []Call {
 		arc(2, 1, 30, 90, -180), // clockwise, more than half
 		arc(1, 1, 0, 0, 450),    // full turn plus a quarter
 		arc(1, 1, 0, 180, -180), // exactly one clockwise turn
+		arc(1, 1, 0, 0, 630),    // full turn plus three quarters: the remainder is a large arc
+		arc(2, 1, 30, 90, -470), // clockwise full turn plus 200 degrees
 	)
 	for k := range menuPaths() {
 		a = append(a, joinCall(k))
